@@ -535,7 +535,7 @@ class Chain(Entry):
                 cs.append({"kw": kw, "z1": z1, "z2": z2, "family": "hand"})
         kinds = ["flat", "flat", "concordance", "open", "closed", "open", "closed", "free-ol"]
         zk = ["from0", "same", "tiny", "low", "edge", "any", "any", "any"]
-        for i in range(ctx.n(160, 1000)):
+        for i in range(ctx.n(130, 1000)):
             kind = kinds[i % len(kinds)]
             kw = gen_cosmo(ctx, kind, K)
             z1, z2 = gen_zpair(r, r.choice(zk))
